@@ -191,7 +191,7 @@ package verifier
 
 //@ func (*signatureVerifier).resolveSigningKey
 //@   prop C01 C17
-//@   assume-benign
+//@   modifies nothing
 //@   call (resolver.KeyResolver).ResolveKeyByID #1 requires [kid-or-issuer-assertion-key]
 //@           arg(2) == metadata && arg(3) == resolver.NutsSigningKeyType
 //@        && (old(kid) != "" ==> arg(1) == old(kid) || arg(1) == old(kid) + "#0")
